@@ -28,15 +28,15 @@ const (
 
 func init() {
 	register("C22", propMeta{
-		Explanation:  "Decides the backup -> write -> delete-backup discipline of registry block writes: (R1) in writeBlockRegionPayload the copy-on-write backup is created (and its failure stops the write) before the direct-I/O write, and the backup is deleted only after a complete successful write; (R2) only writeBlockRegionPayload and restoreFromCow may call the direct-I/O write; (R3) updateFileBlockRegion holds the block lock (released by defer) around read-verify-modify-write; (R4) format agreement between the backup's writer and its reader: the buffer handed to createCow is the very block buffer that is then written to the main file (a full blockSize block carrying its checksum), all callers allocate it with the aligned-block allocators, createCow writes exactly its data argument, and checkCow accepts exactly blockSize bytes that pass unmarshalData.",
+		Explanation:  "Decides the backup -> write -> delete-backup discipline of registry block writes: (R1) in writeBlockRegionPayload the copy-on-write backup is created (and its failure stops the write) before the direct-I/O write, and the backup is deleted only after a complete successful write; (R2) only writeBlockRegionPayload and restoreFromCow may call the direct-I/O write; (R3) updateFileBlockRegion holds the block lock (released by defer) around read-verify-modify-write; (R4) format agreement between the backup's writer and its reader: the buffer handed to createCow is the very block buffer that is then written to the main file (a full blockSize block carrying its checksum), all callers allocate it with the aligned-block allocators, createCow writes exactly its data argument, and checkCow accepts exactly blockSize bytes that pass unmarshalData. (R5) marshalData writes the 4-byte trailer on every path, including the all-zero fast path, because blocks are marshalled in place over previously read bytes; (R6) every caller of writeBlockRegionPayload reads the same (file, offset) into the written buffer after acquiring the block lock.",
 		DoesNotCover: "Torn-prefix lengths and concurrent readers are not enumerated; that WriteFile is atomic enough for the backup itself is assumed.",
 	}, runC22)
 	register("C23", propMeta{
-		Explanation:  "(R1) In readAndRestoreBlock every success (nil) return is dominated by a successful checksum verification of the bytes just read, or hands over to restoreFromCow, whose own success returns are dominated by copying checksum-verified backup bytes into the caller's buffer; (R2) every reader of block bytes (findOneFileRegion, updateFileBlockRegion) obtains them through readAndRestoreBlock, which is the only caller of the direct-I/O read; (R3) checkCow returns restorable data only when unmarshalData accepted it.",
+		Explanation:  "(R1) In readAndRestoreBlock every success (nil) return is dominated by a successful checksum verification of the bytes just read, or hands over to restoreFromCow, whose own success returns are dominated by copying checksum-verified backup bytes into the caller's buffer; (R2) every reader of block bytes (findOneFileRegion, updateFileBlockRegion) obtains them through readAndRestoreBlock, which is the only caller of the direct-I/O read; (R3) checkCow returns restorable data only when unmarshalData accepted it. (R4) the verifier itself: every success return of unmarshalData lies behind the equality of crc32.ChecksumIEEE(block[:dataLen]) with the stored trailer, or behind isZeroData applied to the WHOLE block.",
 		DoesNotCover: "CRC32 collision resistance; corruption of a block that is all zeros (documented sparse-block optimisation).",
 	}, runC23)
 	register("C24", propMeta{
-		Explanation:  "Obligations discharged by table extraction and constant evaluation: O1 the widths written by encoding.encode sum to sop.HandleSizeInBytes; O2 decode reads the same (field, width) sequence; O3 every field of sop.Handle appears exactly once in each; O4 each field's Go type has exactly the encoded width and both sides use the same byte order; O5 handlesPerBlock x HandleSizeInBytes + 4 <= blockSize; O6 the slot offset is (low % handlesPerBlock) x HandleSizeInBytes and the block offset a multiple of blockSize; O7 the checksum is placed by marshalData(buffer[:blockSize-4], buffer) in the last 4 bytes; O8 the block scan visits handlesPerBlock slots stepping by HandleSizeInBytes; O9 the handle bytes are copied into [offset, offset+HandleSizeInBytes).",
+		Explanation:  "Obligations discharged by table extraction and constant evaluation: O1 the widths written by encoding.encode sum to sop.HandleSizeInBytes; O2 decode reads the same (field, width) sequence; O3 every field of sop.Handle appears exactly once in each; O4 each field's Go type has exactly the encoded width and both sides use the same byte order; O5 handlesPerBlock x HandleSizeInBytes + 4 <= blockSize; O6 the slot offset is (low % handlesPerBlock) x HandleSizeInBytes and the block offset a multiple of blockSize; O7 the checksum is placed by marshalData(buffer[:blockSize-4], buffer) in the last 4 bytes; O8 the block scan visits handlesPerBlock slots stepping by HandleSizeInBytes; O9 the handle bytes are copied into [offset, offset+HandleSizeInBytes); O10 decode assigns every field of the target on every success path, so the decoded handle does not depend on what the target held before.",
 		DoesNotCover: "Nothing about concurrency; the byte-level behaviour of encoding/binary and bytes.Buffer is trusted.",
 		Technique:    "static analysis: extraction of the encoder's and decoder's field/width tables from the syntax tree, agreement checks, and constant evaluation of the block layout arithmetic (go/types, go/constant)",
 	}, runC24)
@@ -286,6 +286,11 @@ func runC22(c *Ctx) {
 		c.Check(len(szConds) == 1, r4, "checkCow requires a full block", fck.Decl.Pos(), "len(data) != blockSize is tested", "no size test on the backup", nil)
 		c.Offences(gck, offs, r4, "checkCow returns data only when it is a full block", fck.Decl.Pos(), "restorable data only on the len(data)==blockSize edge", "a backup of another size can be returned as restorable")
 	}
+
+	r5 := c.Rule("R5", "marshalData stores the 4-byte trailer on every path (also on the all-zero fast path): the block is marshalled in place over previously read bytes", 2)
+	trailerRule(c, r5)
+	r6 := c.Rule("R6", "read-modify-write under one lock hold: every caller of writeBlockRegionPayload reads the same (file, offset) into the written buffer after acquiring the block lock (shared with C21.R5)", 2)
+	rmwRule(c, r6)
 }
 
 func runC23(c *Ctx) {
@@ -389,6 +394,108 @@ func runC23(c *Ctx) {
 			c.Offences(gx, offs, r2, shortKey(k)+": failed verifying read is not followed by a decode of that buffer", nc.cs.Call.Pos(), "after an error the buffer is not decoded/rewritten (without another read)", "the buffer is consumed although the verifying read failed")
 		}
 	}
+
+	r4 := c.Rule("R4", "the verifier itself: unmarshalData accepts a block only when the CRC32 of its data section equals the stored trailer, or when the WHOLE block (data and trailer) is zero", 3)
+	verifierRule(c, r4)
+}
+
+// verifierRule (C23.R4): every success return of fs.unmarshalData is dominated by the checksum comparison's
+// equal edge or by isZeroData(<the whole block parameter>) being true.
+func verifierRule(c *Ctx, r4 string) {
+	w := c.W
+	f := w.Fn(kUnmarshalData)
+	g := w.G(f)
+	c.Analysed(f)
+	info := f.Pkg.TypesInfo
+	defs := localDefs(f)
+	block := f.Obj.Type().(*types.Signature).Params().At(0)
+	// the checksum comparison: one side derives from crc32.ChecksumIEEE, the other from binary...Uint32 of the block
+	type edge struct {
+		n      *GNode
+		branch int
+	}
+	var accept []edge
+	for _, cn := range g.Nodes {
+		if !cn.IsCond || cn.Ast == nil {
+			continue
+		}
+		switch e := cn.Ast.(type) {
+		case *ast.BinaryExpr:
+			if e.Op != token.NEQ && e.Op != token.EQL {
+				continue
+			}
+			isCRC := func(x ast.Expr) bool { return w.mentionsDeep(f, defs, x, nil, "hash/crc32.ChecksumIEEE") }
+			isSaved := func(x ast.Expr) bool {
+				return w.mentionsDeep(f, defs, x, nil, "encoding/binary.littleEndian.Uint32", "encoding/binary.bigEndian.Uint32", "encoding/binary.ByteOrder.Uint32") && w.mentionsDeep(f, defs, x, block)
+			}
+			if (isCRC(e.X) && isSaved(e.Y)) || (isCRC(e.Y) && isSaved(e.X)) {
+				br := 1
+				if e.Op == token.NEQ {
+					br = 2
+				}
+				accept = append(accept, edge{cn, br})
+			}
+		case *ast.CallExpr:
+			if cs := w.resolveCall(f, e); cs != nil && cs.Key == "fs.isZeroData" && len(e.Args) == 1 {
+				if id, ok := ast.Unparen(e.Args[0]).(*ast.Ident); ok && info.Uses[id] == types.Object(block) {
+					accept = append(accept, edge{cn, 1})
+				}
+			}
+		}
+	}
+	nCRC := 0
+	for _, a := range accept {
+		if _, ok := a.n.Ast.(*ast.BinaryExpr); ok {
+			nCRC++
+		}
+	}
+	c.Check(nCRC == 1, r4, "unmarshalData: compares the computed CRC32 of the data section with the stored trailer", f.Decl.Pos(), "one comparison of crc32.ChecksumIEEE(...) with the Uint32 read from the block", fmt.Sprintf("found %d such comparisons", nCRC), nil)
+	// success returns reachable without taking an accepting edge
+	cut := func(from *GNode, e Edge) bool {
+		for _, a := range accept {
+			if from == a.n && e.Cond == a.branch {
+				return true
+			}
+		}
+		return false
+	}
+	offs := g.ReachableWithout(cut, func(n *GNode) bool { return n.Ret != nil && g.ClassifyReturn(n) != RetNonNil })
+	c.Offences(g, offs, r4, "unmarshalData: success only through the checksum match or the all-zero-block shortcut", f.Decl.Pos(), "every success return lies behind `crc == saved` or isZeroData(block)",
+		"a block can be accepted without its checksum matching and without being entirely zero (e.g. on a zero trailer alone): a corrupted block is served as valid and its good backup is discarded")
+	// the CRC is computed over block[:len(block)-4]
+	okSpan := false
+	for _, cs := range w.Sites(f) {
+		if cs.Key == "hash/crc32.ChecksumIEEE" && len(cs.Call.Args) == 1 {
+			if se, ok := ast.Unparen(cs.Call.Args[0]).(*ast.SliceExpr); ok && se.Low == nil && se.High != nil && mentionsObj(info, se.X, block) {
+				okSpan = w.mentionsDeep(f, defs, se.High, block)
+			}
+		}
+	}
+	c.Check(okSpan, r4, "unmarshalData: the CRC covers the data section of the block", f.Decl.Pos(), "ChecksumIEEE(block[:dataLen])", "the checksum is not computed over the block's data section", nil)
+}
+
+// trailerRule (C22.R5): fs.marshalData stores a trailer on every path.
+func trailerRule(c *Ctx, r5 string) {
+	w := c.W
+	f := w.Fn(kMarshalData)
+	g := w.G(f)
+	c.Analysed(f)
+	info := f.Pkg.TypesInfo
+	blockP := f.Obj.Type().(*types.Signature).Params().At(1)
+	put := func(n *GNode) bool {
+		for _, cs := range n.Calls {
+			if (cs.Key == "encoding/binary.littleEndian.PutUint32" || cs.Key == "encoding/binary.bigEndian.PutUint32" || cs.Key == "encoding/binary.ByteOrder.PutUint32") && len(cs.Call.Args) == 2 {
+				if se, ok := ast.Unparen(cs.Call.Args[0]).(*ast.SliceExpr); ok && se.Low != nil && mentionsObj(info, se.X, blockP) {
+					return true
+				}
+			}
+		}
+		return false
+	}
+	c.Check(len(g.Find(put)) >= 1, r5, "marshalData: trailer writes present", f.Decl.Pos(), fmt.Sprintf("%d PutUint32(block[dataLen:], ...) site(s)", len(g.Find(put))), "no trailer write found", nil)
+	offs := g.MustPrecede(put, func(n *GNode) bool { return n.Ret != nil })
+	c.Offences(g, offs, r5, "marshalData: every return is preceded by a write of the 4-byte trailer", f.Decl.Pos(), "PutUint32(block[dataLen:], ...) on every path",
+		"marshalData can return without writing the trailer: writeBlockRegionPayload marshals in place over the block it just read, so the previous checksum stays behind zeroed data; the block then fails verification and, copied as the next writer's backup, makes a torn write unrecoverable")
 }
 
 // canReachThrough: every path from starts to target passes a node satisfying via.
@@ -672,6 +779,31 @@ func runC24(c *Ctx) {
 		c.Check(ne == 1 && nd == 1, o, "O3 field "+fld.Name()+" encoded and decoded exactly once", fld.Pos(), "once each", fmt.Sprintf("encoded %d times, decoded %d times", ne, nd), nil)
 		c.Check(sizes.Sizeof(fld.Type()) == wd, o, "O4 field "+fld.Name()+" width equals its type's size", fld.Pos(), fmt.Sprintf("%d bytes", wd), fmt.Sprintf("type %s is %d bytes, encoded in %d", fld.Type(), sizes.Sizeof(fld.Type()), wd), nil)
 	}
+	// O10: decode determines every field from the record alone: each field is assigned on every path to the
+	// success return (a field set only under a condition keeps whatever the target held before)
+	{
+		gd := w.G(fd)
+		dinfo := fd.Pkg.TypesInfo
+		okRet := func(n *GNode) bool { return n.Ret != nil && gd.ClassifyReturn(n) != RetNonNil }
+		for i := 0; i < st.NumFields(); i++ {
+			fld := st.Field(i)
+			assignsFld := func(n *GNode) bool {
+				as, ok := n.Ast.(*ast.AssignStmt)
+				if !ok {
+					return false
+				}
+				for _, l := range as.Lhs {
+					if fieldOfSelector(dinfo, l) == fld {
+						return true
+					}
+				}
+				return false
+			}
+			offs := gd.MustPrecede(assignsFld, okRet)
+			c.Offences(gd, offs, o, "O10 decode assigns "+fld.Name()+" on every path", fd.Decl.Pos(), "assigned unconditionally",
+				"decode can return success without assigning "+fld.Name()+": the field keeps the target's previous content, so a record decoded into a handle that is not zero (a reused variable) does not equal the handle that was encoded")
+		}
+	}
 	// O5
 	hpb := w.Object("fs", "handlesPerBlock").(*types.Const)
 	bs := w.Object("fs", "blockSize").(*types.Const)
@@ -783,4 +915,48 @@ func runC24(c *Ctx) {
 		})
 		c.Check(okRange && okStep >= 2 && okSlice >= 2, o, "O8 block scan: handlesPerBlock iterations, step HandleSizeInBytes, slices [o:o+HandleSizeInBytes]", f.Decl.Pos(), "scan covers every slot exactly", fmt.Sprintf("scan shape changed (range over handlesPerBlock=%v, steps=%d, slot slices=%d)", okRange, okStep, okSlice), nil)
 	}
+}
+
+// rmwRule (C21.R5 = C22.R6): read-modify-write of a registry block happens under one hold of the block lock:
+// in every caller of writeBlockRegionPayload, each write is preceded - after the latest acquisition of the block
+// lock - by a readAndRestoreBlock of the same file, offset and buffer.
+func rmwRule(c *Ctx, r string) {
+	w := c.W
+	n := 0
+	for _, k := range callersOf(w, kHMwritePay) {
+		f := w.Fn(k)
+		g := w.G(f)
+		c.Analysed(f)
+		writes := g.callNodes(kHMwritePay)
+		reads := g.callNodes(kHMreadRestore)
+		locks := g.Find(calls(kHMlockRetry, "fs.hashmap.lockFileBlockRegion"))
+		for _, wr := range writes {
+			n++
+			construct := fmt.Sprintf("%s: block write #%d rewrites the image read under the current lock hold", shortKey(k), ordinalOf(w, f, wr.cs))
+			if len(locks) == 0 {
+				c.Violated(r, construct, wr.cs.Call.Pos(), "the block lock is not acquired in this function before the write", nil)
+				continue
+			}
+			isWr := func(x *GNode) bool { return x == wr.n }
+			offs := g.MustPrecede(calls(kHMlockRetry, "fs.hashmap.lockFileBlockRegion"), isWr)
+			offs = append(offs, g.MustFollow(locks, calls(kHMreadRestore), isWr)...)
+			// argument agreement with some read: (dio, offset, buffer) = write args 1, 2, 5 and read args 1, 2, 3
+			agree := false
+			for _, rd := range reads {
+				if len(rd.cs.Call.Args) == 4 && len(wr.cs.Call.Args) == 6 &&
+					types.ExprString(rd.cs.Call.Args[1]) == types.ExprString(wr.cs.Call.Args[1]) &&
+					types.ExprString(rd.cs.Call.Args[2]) == types.ExprString(wr.cs.Call.Args[2]) &&
+					types.ExprString(rd.cs.Call.Args[3]) == types.ExprString(wr.cs.Call.Args[5]) {
+					agree = true
+				}
+			}
+			if !agree {
+				c.Violated(r, construct, wr.cs.Call.Pos(), "no readAndRestoreBlock call in this function reads the same (file, offset) into the buffer that is written", nil)
+				continue
+			}
+			c.Offences(g, offs, r, construct, wr.cs.Call.Pos(), "lock, then readAndRestoreBlock(dio, offset, buf), then writeBlockRegionPayload(dio, offset, ..., buf) on every path",
+				"the block can be rewritten from an image that was not read after the block lock was taken for this write (an image kept from an earlier iteration, another segment file's block with the same offset, or bytes another writer has since changed): the other slots of the block are overwritten with stale content")
+		}
+	}
+	c.Check(n >= 1, r, "callers of writeBlockRegionPayload inventoried", token.NoPos, fmt.Sprintf("%d write site(s)", n), "no write site found", nil)
 }
